@@ -311,7 +311,9 @@ def rule_F6(ctx, rid='F6'):
     ctx.require(n_exp >= 2, 'assignments to Sampler.explored not found')
     # structural writers of bounds
     w = writers_of(prog, 'Sampler', 'bounds', kinds={'assign', 'mutcall', 'del'})
-    allowed = {'Sampler.__init__', 'Sampler.add_bound', 'Sampler.run'}
+    from .resolve import helper_closure
+    allowed, _ = helper_closure(prog, prog.cls('Sampler'), {
+        'Sampler.__init__', 'Sampler.add_bound', 'Sampler.run'})
     ctx.require('Sampler.add_bound' in w, 'add_bound no longer appends a bound')
     for q in sorted(w):
         ctx.ob(rid, 'bounds:structural-writer(%s)' % q, q in allowed, prog.functions[q].where(),
